@@ -13,6 +13,9 @@ TRUST = ("Trusted base: go/packages loader, go/types, golang.org/x/tools/go/ssa 
 
 # id -> (technique, level text, design ref, extra note)
 CLAIMED = {
+    "C01": ("symbolic interpretation of the decoder's SSA along every success path (forced branches, enumerated forks, one symbolic loop element) giving field origins over the BER tree; comparison with an RFC 4511 table; branch-table extraction for the kind maps",
+            "Decides position, accessor, order and completeness of every decoded field, the class/type/tag assertions, the protocolOp->kind->message->operation bijection and the version gate, for all inputs at once; values are never inspected. ldap.DecompileFilter / ber.ReadPacket are trusted.",
+            "2/C01", ""),
     "C02": ("panic-site enumeration over the decode call-graph slice + forward must-dataflow of guard facts on SSA (access-path keys, callee success summaries, functional-option contexts)",
             "Sound for the enumerated panic classes in gldap's own decode code for every BER tree ber.ReadPacket can return, modulo the listed library facts; the connection-level recover is not accepted as a guard. Library-internal resource exhaustion is not decided.",
             "2/C02", ""),
@@ -22,6 +25,9 @@ CLAIMED = {
     "C07": ("goroutine census with deferred-recover dominance check, accept-loop retry path search, exit/containment scans over the connection call-graph slice",
             "Decides that every goroutine gldap starts for handler or decode code is fenced by recover() exactly under !disablePanicRecovery and that transient accept errors loop; correctness of bystanders' answers is not decided.",
             "2/C07", ""),
+    "C04": ("symbolic interpretation of every response encoder and constructor (BER tree grammar per path, option resolution, callee inlining) compared with the RFC 4511 grammar; setter / option / NewInteger scans",
+            "Decides which value ends up in which slot of which tag for all values, option subsets and setter uses; BER length/identifier octets are the library's.",
+            "2/C04", ""),
     "C05": ("SSA must-held lock-set + path-count typestate + who-calls/who-constructs scans",
             "Sound lock-discipline argument over all schedules: every access to the shared bufio.Writer is inside one critical section of the connection's single mutex that emits exactly one whole frame and flushes it; no schedule is executed.",
             "2/C05", ""),
@@ -46,6 +52,12 @@ CLAIMED = {
     "C13": ("control-dependence of the StartTLS dispatch site, value provenance in StartTLS/initConn, lock-set, socket-use discipline scan",
             "Decides that no LDAP read can interleave with the upgrade and that after it all I/O goes through the TLS reader/writer pair built from the handshaken connection; crypto/tls behaviour is trusted.",
             "2/C13", ""),
+    "C14": ("BER tree grammar of every control encoder (all paths) against RFC 4511 / RFC 2696 / draft-behera-10 / draft-vchu-00; attachment position; truth table of the Behera constructor",
+            "Decides agreement of every control's encoding with the published grammars (what an independent client parses), the attachment of controls in both directions and the Behera constructor's validation; encode/decode composition per field is listed as not decided until built.",
+            "2/C14", ""),
+    "C15": ("frozen field classification + must-held lock sets (with entry lock sets of private callees) + confinement to the connection goroutine + who-writes scans + closure-capture check",
+            "Race freedom on the tabled state of conn, Server, Mux, ResponseWriter and Directory under the stated goroutine structure; a new field fails the check until classified. No schedule is explored.",
+            "2/C15", ""),
     "C16": ("panic-site enumeration (engine E2) from the exported helper/constructor entries with caller-controlled parameters; sibling layout comparison for SID; order-taint and paired-write scans",
             "Decides panic freedom (enumerated classes) for all argument values and option subsets, deterministic attribute order and paired string/byte values; the value-level inverse clauses are not decided.",
             "2/C16", ""),
@@ -58,6 +70,9 @@ CLAIMED = {
     "C19": ("decision-table walk (engine E4) of the bind handler's CFG over canonical branch atoms, compared row by row with the reference formula",
             "Decides the if-and-only-if of the statement for every user set, DN and password (one symbolic user = existential over the list), independent of transport.",
             "2/C19", ""),
+    "C20": ("per-handler effect analysis: stores reachable from the matched entry on every path of each modify arm, success/store pairing by path search, default-code and result-source provenance",
+            "Necessary per-handler clauses only (effects exist, success pairs with the store, codes, result source); whole operation histories against a reference model are not replayed.",
+            "2/C20", "History clauses not decided."),
 }
 
 NOT_YET = "rule set designed in DESIGN.md section 2 but not built/armed yet in this round; not claimed until its rules run clean and catch seeded changes"
